@@ -379,9 +379,128 @@ func c13TwoReaders(c *evid.Ctx) {
 	}
 }
 
+// c13Spin: the windows that have no hook point. Readers spin on GetLog / FirstIndex /
+// LastIndex with nothing slowing them down (no perturbation, no gate between calls)
+// while the writer issues back-to-back single-entry head truncations and rotating
+// appends, so that on a multi-core machine releases of the old state and the writer's
+// publication of the next one collide constantly. Every few writer steps the readers
+// are stopped at a barrier and the quiescent monitor is applied.
+func c13Spin(c *evid.Ctx, seed int64, rounds int) {
+	rng := rand.New(rand.NewSource(seed))
+	disk := simfs.New(simfs.Strict)
+	w, err := drv.OpenSim(disk, drv.Cfg{SegSize: 256})
+	if err != nil {
+		c.Violation("C13:open", err.Error(), nil)
+		return
+	}
+	replay := map[string]any{"scenario": "spin", "seed": seed}
+	var gate sync.RWMutex
+	var first, last atomic.Uint64
+	var stop atomic.Bool
+	var reads atomic.Int64
+	var wg sync.WaitGroup
+	nr := 2 + int(seed%3)
+	for r := 0; r < nr; r++ {
+		wg.Add(1)
+		kind := r % 3
+		go func() {
+			defer wg.Done()
+			var l raft.Log
+			for !stop.Load() {
+				gate.RLock()
+				for k := 0; k < 64; k++ {
+					switch kind {
+					case 0:
+						_ = w.GetLog(first.Load(), &l)
+					case 1:
+						_, _ = w.FirstIndex()
+					default:
+						_ = w.GetLog(last.Load(), &l)
+					}
+				}
+				reads.Add(64)
+				gate.RUnlock()
+			}
+		}()
+	}
+	next := uint64(1)
+	f := uint64(1)
+	ok := true
+	check := func(where string) {
+		gate.Lock()
+		defer gate.Unlock()
+		if !hooks.WaitRotation(w, drv.Watchdog) {
+			c.Inconclusive("C13 spin: rotation did not finish within the watchdog (seed %d)", seed)
+			ok = false
+			return
+		}
+		c.Count("images", 1)
+		c.Distinct("c13_nontrivial", fmt.Sprintf("spin|%s|segs=%d|readers=%d", where, len(disk.MetaSnapshot().State.Segments), nr))
+		if !c13Quiescent(c, disk, "spin:"+where, replay) {
+			ok = false
+		}
+	}
+	for round := 0; round < rounds && ok; round++ {
+		// fill: 24 entries, 2 per segment
+		for k := 0; k < 12 && ok; k++ {
+			logs := []*raft.Log{gen.Entry(rng, next, "q", 70), gen.Entry(rng, next+1, "q", 70)}
+			if err := w.StoreLogs(logs); err != nil {
+				c.Violation("C13:spin-append", err.Error(), replay)
+				ok = false
+				break
+			}
+			next += 2
+			last.Store(next - 1)
+			if first.Load() == 0 {
+				first.Store(f)
+			}
+		}
+		check("filled")
+		// drain: one entry per DeleteRange, back to back
+		for f+2 < next && ok {
+			if err := w.DeleteRange(f, f); err != nil {
+				c.Violation("C13:spin-delete", err.Error(), replay)
+				ok = false
+				break
+			}
+			f++
+			first.Store(f)
+			c.Count("spin_truncations", 1)
+		}
+		check("drained")
+	}
+	stop.Store(true)
+	wg.Wait()
+	if ok {
+		check("end")
+	}
+	drv.CloseWAL(w)
+	c.Count("spin_runs", 1)
+	c.Count("spin_reads", reads.Load())
+}
+
 // c13Concurrent runs the concurrent scenarios (called from runCrash for C13).
 func c13Concurrent(c *evid.Ctx) {
 	c13TwoReaders(c)
+	{
+		// before any perturbation is installed: the spinning phase wants full speed
+		nspin, rounds := 8, 6
+		if !quick(c) {
+			nspin, rounds = 64, 20
+		}
+		var sw sync.WaitGroup
+		for k := 0; k < nspin; k++ {
+			sw.Add(1)
+			go func(k int) {
+				defer sw.Done()
+				c13Spin(c, c.Seed*911+int64(k), rounds)
+			}(k)
+			if (k+1)%4 == 0 {
+				sw.Wait() // at most 4 at a time: each has up to 4 spinning readers
+			}
+		}
+		sw.Wait()
+	}
 	ctl := sched.New()
 	ctl.Perturb(c.Seed*3+1, 0.2)
 	remove := ctl.Install()
